@@ -59,6 +59,31 @@ func c03Gen(r *rand.Rand, tier string) any {
 		// full build, one item edit, interrupted rebuild
 		label := pickLabel(r, shadow)
 		items := shadow.semanticItems()
+		if r.IntN(2) == 0 {
+			// an edit of the dependency SET (a glob gains a file, a dependency edge is added),
+			// undone after the interrupted rebuild: the tree is then exactly what it was
+			var eds []opSpec
+			for _, t := range shadow.closure(label) {
+				for _, g := range t.GlobDirs {
+					eds = append(eds, opSpec{Op: "dir-add", Path: shadow.sourceRel(t, g), N: 7})
+				}
+				for _, o := range shadow.closure(label) {
+					if o != t && !shadow.reaches(o, t) && !t.ReadsDeps {
+						has := false
+						for _, d := range t.Deps {
+							has = has || d == o.label()
+						}
+						if !has {
+							eds = append(eds, opSpec{Op: "add-dep", Label: t.label(), Item: o.label()})
+						}
+					}
+				}
+			}
+			if len(eds) > 0 {
+				sc.Ops = append(sc.Ops, opSpec{Op: "build", Label: label}, eds[r.IntN(len(eds))], opSpec{Op: "build", Label: label})
+				return sc
+			}
+		}
 		if len(items) > 0 {
 			sc.Ops = append(sc.Ops, opSpec{Op: "build", Label: label})
 			sc.Ops = append(sc.Ops, opSpec{Op: "edit-item", Item: items[r.IntN(len(items))], N: 1 + r.IntN(3)})
@@ -246,6 +271,14 @@ func (h *histRun) revertLastEdit(sc *histScenario, last int) bool {
 				return false
 			}
 			return true
+		}
+		if sc.Ops[i].Op == "dir-add" {
+			inv := opSpec{Op: "dir-unadd", Path: sc.Ops[i].Path, N: sc.Ops[i].N}
+			return h.edit(last, &inv) == nil
+		}
+		if sc.Ops[i].Op == "add-dep" {
+			inv := opSpec{Op: "remove-dep-label", Label: sc.Ops[i].Label, Item: sc.Ops[i].Item}
+			return h.edit(last, &inv) == nil
 		}
 		if isProcessOp(sc.Ops[i].Op) {
 			return false
